@@ -1,20 +1,20 @@
 #!/bin/bash
 # wave 3: usage: confirm_seeded2.sh Cxx mN   (scratch worktree /tmp/wt2/Cxx)
-id="$1"; m="$2"; wt=/tmp/wt2/$id; out=$wt/_out/$m
+id="$1"; m="$2"; base=${WTBASE:-/tmp/wt2}; wt=$base/$id; out=$wt/_out/$m
 cd "$wt" || exit 9
 git checkout -q -- . ; rm -f sudachi/tests/demo.rs sudachi/tests/c*_demo.rs
 git apply "$out/patch.diff" || { echo "$id $m: PATCH-FAIL"; exit 1; }
 suite=$(cargo test --workspace --no-fail-fast --offline 2>&1 | grep -E "^test result" | awk '{p+=$4; f+=$6} END {print p"/"f}')
 if [ -f "$out/demo.rs" ]; then
   cp "$out/demo.rs" sudachi/tests/demo.rs
-  cargo test --offline -p sudachi --test demo >/tmp/wt2/$id-$m-with.log 2>&1; with=$?
+  cargo test --offline -p sudachi --test demo >$base/$id-$m-with.log 2>&1; with=$?
   git checkout -q -- .
-  cargo test --offline -p sudachi --test demo >/tmp/wt2/$id-$m-without.log 2>&1; without=$?
+  cargo test --offline -p sudachi --test demo >$base/$id-$m-without.log 2>&1; without=$?
   rm -f sudachi/tests/demo.rs
 elif [ -f "$out/run.sh" ]; then
-  bash "$out/run.sh" >/tmp/wt2/$id-$m-with.log 2>&1; with=$?
+  bash "$out/run.sh" >$base/$id-$m-with.log 2>&1; with=$?
   git checkout -q -- .
-  bash "$out/run.sh" >/tmp/wt2/$id-$m-without.log 2>&1; without=$?
+  bash "$out/run.sh" >$base/$id-$m-without.log 2>&1; without=$?
 else
   with=NA; without=NA; git checkout -q -- .
 fi
